@@ -30,7 +30,9 @@ PROP = {
         "GunYu.Props.C13.drain_bound",
         "GunYu.Props.C13.drain_reaches",
         "GunYu.Props.C13.bookclean_derived",
+        "GunYu.Props.C13.no_loop_always",
         "GunYu.Props.C13.no_loop_no_false_suppression",
+        "GunYu.Props.C13.exactly_once_needs_exact_restarts",
         "GunYu.Props.C13.drain_reaches_global",
         "GunYu.Props.C13.D31_counterexample",
     ],
@@ -52,7 +54,7 @@ PROP = {
             "execBisyncUnit (sync and journal mode, real frontier coordinator onCommitted/flush) / execBisyncRdbUnit / checkpoint-hash and "
             "namespace-mode writes through a real RedisConn into the shared target double whose request log is executed at the destination site; "
             "10-70 events per history (client commands and transactions at both sites incl. transactions of 9-40 and 65-200 commands, clients poking the reserved namespace, ticks incl. >24 h, "
-            "expiry visits incl. marker keys, link steps, restarts of either link (rewind to the last committed unit, also once in the drain), snapshot units, bookkeeping), then a drain. Monitors: nothing the tool wrote comes back "
+            "expiry visits incl. marker keys, link steps, restarts of either link (rewind to the last committed unit, also once in the drain; in 1/3 of the histories connection cuts inside the real loops and resume points from the real StartPoint, fresh or same process), snapshot units, bookkeeping), then a drain. Monitors: nothing the tool wrote comes back "
             "as a unit or halts the opposite link; every vouched client/expiry block comes out; each applied exactly once; units committed during "
             "the drain <= pending client blocks; commit = one MULTI of marker + business + record(+index); every stand-alone request the tool "
             "issues has a form in the model. distinct_nontrivial is not used (histories are compared whole)",
@@ -82,15 +84,27 @@ PROP = {
                 "(marker JSON values are admitted); the block-level theorem foreign_never_suppressed covers such values (hypothesis on keys + first argument only)",
                 "bookkeeping_skipped covers stand-alone requests (how the code issues every one of them: pinned by the bookkeeping-inside-multi monitor); a MULTI block of "
                 "redis-gunyu-bisync: keys without a marker would NOT be skipped (model event toolRaw reproduces the echo)",
-                "CLOSED (was: BookClean assumed per event): no_loop_no_false_suppression / bookclean_derived range over event lists whose events satisfy EvOK' — a "
-                "condition on each event ALONE — and derive BookClean from the global invariant GInv = WInv + NsTtl (the only namespace keys with an expiry are marker "
-                "keys of brace-free checkpoint names: only the first argument of SET/(P)EXPIRE(AT)/RESTORE can gain an expiry, frame lemma over all 12 propagate families) "
-                "+ RInv (resume position) + brace-free link names; restarts / reconnects of either syncer (Ev.restart: resume anywhere between the last committed unit and "
-                "the read position, fresh parser, stop forgotten) are events of that theorem and of the harness histories. What EvOK' still asks: checkpoint names brace-free "
-                "(as NewBisyncCheckpointName makes them; also for the names inside journal/index/latest bookkeeping requests), snapshot commands with their first argument "
-                "outside the namespace (the snapshot filter withholds reserved keys, C10), bookkeeping requests other than a marker's expiry (that is Redis's doing: Ev.expire); "
-                "exactly_once_and_quiesce (GoodRun, BookClean assumed, no restarts) is kept unchanged",
-                "that a restarted syncer resumes at or behind its last committed unit (Ev.restart's guard cpos <= p <= pos) is C14's guarantee, taken as the event's definition here",
+                "CLOSED (was: BookClean assumed per event): bookclean_derived / no_loop_always / no_loop_no_false_suppression range over event lists whose events satisfy EvOK' — "
+                "a condition on each event ALONE — from two sites holding ANY data in which no namespace key other than a marker key carries an expiry (NsTtl; empty sites in "
+                "particular), and derive BookClean from the invariant (only the first argument of SET/(P)EXPIRE(AT)/RESTORE can gain an expiry: frame lemma over all 12 propagate "
+                "families; key-form lemmas). What EvOK' still asks: checkpoint names brace-free (as NewBisyncCheckpointName makes them; also for the names inside journal/index/latest "
+                "bookkeeping requests), snapshot commands with their first argument outside the namespace (the snapshot filter withholds reserved keys, C10), bookkeeping requests "
+                "other than a marker's expiry (that is Redis's doing: Ev.expire), expiry visits not on redis-gunyu-checkpoint* / /redis-gunyu* keys; client commands with NO argument "
+                "under a reserved prefix (ClientOK, stronger than 'no key'); exactly_once_and_quiesce (GoodRun, BookClean assumed, no restarts) is kept unchanged",
+                "RESTARTS, stated precisely. Ev.restart src p seq resumes at ANY block p already reached (p <= pos), with the unit numbering the start point gives. "
+                "(a) no_loop_always holds for EVERY such restart, also one that resumes BEFORE the last committed unit (pipeline / parallel mode resume at the contiguous frontier, "
+                "the same process at its in-memory reported frontier): every commit ever made comes from a client block, every block the tool wrote is passed over however often "
+                "it is read, every consumed client block has been committed AT LEAST once with exactly its commands, links stop only on the builder. "
+                "(b) 'each once' and quiescence (no_loop_no_false_suppression conjuncts 2', 4') additionally need ExactRestarts: every restart of the run resumes at or behind the "
+                "last unit its link committed — what SYNC mode's records give (C14 sync_mode_exact); C14 guarantees only a committed PREFIX for pipeline / parallel, so for those modes "
+                "only (a) is claimed. exactly_once_needs_exact_restarts refutes the unconditional statement (exactly_once_any_restart_stmt, written out) on a 4-event history: the "
+                "unit is committed twice. The property text says 'absent restarts' for exactly-once, so (b) is more than it asks and (a) is what it asks about loops. "
+                "A resume point BEYOND what was read (after an in-process full resynchronisation) is a no-op of the model: no event for a full resync in the middle of a history",
+                "where a restarted syncer resumes is taken from the code in part of the histories only: 1/3 of the closed-loop histories inject connection cuts into the real "
+                "loops (requests executed, replies lost) and take the resume point from the REAL RedisOutput.StartPoint on the link's target double — fresh process (new RedisOutput: "
+                "latest records / frontier snapshot + journal) or same process (in-memory fast path) — including what StartPoint itself writes (frontier save, journal clean-up, "
+                "DEL frontier on fall-back to the root: bookkeeping form frontierDel); the other restarts rewind to the harness's own last-committed position. After a restart "
+                "that resumed before the last committed unit the harness keeps judging no-loop and at-least-once and stops judging at-most-once (rewound)",
                 "foreign_never_suppressed_stmt (hypothesis on keys only) is kept as a def: the code's namespace test looks at the first argument of every "
                 "command, so a key-less command whose first argument carries a reserved prefix (PUBLISH redis-gunyu-bisync:…) is skipped; the proved "
                 "theorem carries the first-argument hypothesis (fgn_of_keys shows it follows from the keys hypothesis when the first argument is a key)",
@@ -117,12 +131,14 @@ MANIFEST = {
             "outside the reserved namespace, whatever values it carries, comes out as exactly one unit with exactly its commands or stops the replay; "
             "(exactly_once_and_quiesce) for all interleavings of client writes, ticks, expiries, link steps, snapshot units and bookkeeping at two "
             "sites, each link's commits are exactly the consumed client blocks, once each, and after the last client block further link steps change "
-            "nothing; (no_loop_no_false_suppression) the same at full strength for ANY list of events each satisfying a condition on the event alone — "
-            "restarts / reconnects of either syncer included, BookClean derived from the global invariant (bookclean_derived) instead of assumed; "
+            "nothing; (no_loop_always) for ANY list of events each satisfying a condition on the event alone, from sites holding any data, with restarts of either syncer "
+            "that resume at ANY block already reached (also before the last committed unit): no unit is ever built from what the tool wrote, every consumed client block is "
+            "committed at least once with its commands, BookClean derived (bookclean_derived) instead of assumed; (no_loop_no_false_suppression) exactly once and quiescence when "
+            "every restart resumes at or behind the last committed unit (sync mode) — the unconditional statement is written out and refuted (exactly_once_needs_exact_restarts); "
             "(D31_counterexample) the statement with databases is refuted: the one known exception. Tied to the code by differential correspondence of the predicates, the parser, the propagation double and whole closed-loop "
             "histories through the real parser/commit code.",
-    "note": "trusted: Lean kernel, the `propagate` transcription of Redis's propagation rewrites, extractor, harness doubles; the global theorem assumes "
-            "nothing about states (event-local conditions only); databases are the known exception (D31)",
+    "note": "trusted: Lean kernel, the `propagate` transcription of Redis's propagation rewrites, extractor, harness doubles; the global theorems assume "
+            "nothing about states (event-local conditions only); exactly-once under restarts is claimed for exact (sync-mode) restarts only; databases are the known exception (D31)",
     "technique": "Lean 4 proof (parser lemmas over filtered block bodies, shape lemma for propagate, two-site invariant by induction over event lists) + "
                  "differential correspondence + closed-loop monitors",
 }
